@@ -23,6 +23,10 @@
          — the hypotheses of those theorems (no overflow, `2⁻¹⁰⁰ ≤ ℓ`, `len_k ≤ 2²⁷ ℓ`, …) are NOT derived from the
          control points here: that is what is missing for the full statement `linear_curve_len_position_err_float32_statement`.
        * `hlen : c.path.length = c.lengths.length` — fails exactly in the equal-tail outcome (see the finding).
+     `linear_curve_len_lenAdjOk` reduces `LenAdjOk` to "`cutPoint 0 path L` of the NATURAL path is finite and bounded by
+     `2¹⁹` in the main outcome"; `cutPoint_base_vertices`: the two points it is re-projected from are control-point
+     positions; `linear_curve_len_position_err_float32_of_cutPoint`: the position theorem with hypotheses on the natural
+     path only (`hnt`: no equal tail; `hcut`). Part 3 of the task (through the decoder) is NOT done.
   Kernel-evaluated examples: control points `(100,200) L, (107,224), (100,200)` with `L = 40` (cut inside the second
   segment) and `L = 60` (extension): all hypotheses hold.
 -/
